@@ -8,7 +8,8 @@ L1, L2 = f"m{2*rnd-1}", f"m{2*rnd}"
 p = [json.loads(l) for l in open('/verif/properties.jsonl') if json.loads(l)['id'] == pid][0]
 wt = f"/tmp/seed-{pid}"
 out = f"/tmp/seed-out/{pid}" if rnd == 1 else f"/tmp/seed-r{rnd}/{pid}"
-extra = "" if rnd == 1 else " Look beyond the most obvious site: helper functions, caches and memo tables, flag plumbing, trusted vs untrusted or fast vs slow paths, rarely used public entry points, accumulators and cursor/offset updates, and interactions between two features are all fair game; the two changes should be in different functions and exercise different mechanisms."
+extra3 = " This is a late round: earlier attempts already covered the straightforward edits (off-by-one at an encoding boundary, a dropped or moved check at the main parse site, swapped trusted/untrusted branches, a moved accumulator update). Aim for changes whose trigger is a COMBINATION: two conditions or operations that only misbehave together, an input that is valid only under one flag set, a rarely taken branch feeding a later stage, a value that is canonical in one representation and not in another, state left behind by a failed or rejected operation, public API functions that the main validation path itself never calls."
+extra = "" if rnd == 1 else (extra3 if rnd >= 3 else "") + " Look beyond the most obvious site: helper functions, caches and memo tables, flag plumbing, trusted vs untrusted or fast vs slow paths, rarely used public entry points, accumulators and cursor/offset updates, and interactions between two features are all fair game; the two changes should be in different functions and exercise different mechanisms."
 print(f"""You are helping test a verification effort for the Rust repository Chia-Network/chia_rs (Chia blockchain consensus library). You have your own scratch git worktree of the repository at {wt} (work ONLY there; never touch /repo or /verif, and do not read anything under /verif). The sandbox is offline: use `cargo ... --offline`, rust toolchain is pinned by rust-toolchain.toml. Set CARGO_TARGET_DIR={wt}/target for everything you build.
 
 Here is a semantic property that the code is supposed to satisfy:
